@@ -777,6 +777,168 @@ func c05UnpackerBounds(c *Ctx) {
 	}
 }
 
+// C06.6: no element-shifting removal from a history slice inside a loop that ranges over that slice's own iterator
+// (the repository states the rule itself in detectLostPathProbes: "RemovePathProbe cannot be called while
+// iterating"). An iterator method of the history ranges over one of its slice fields; a method that compacts that
+// slice in place (copy onto it, slices.Delete / Insert) moves the not yet visited elements under the running
+// iteration: some are visited twice (their frames reported twice), others are skipped.
+func c06NoRemovalWhileIterating(c *Ctx) {
+	const R = "C06.6"
+	type iterInfo struct {
+		fn    *ssa.Function
+		field *types.Var
+	}
+	var iters []iterInfo
+	// iterator methods of the ack handler's history types and the slice field they range over
+	for _, spec := range [][3]string{{ah, "sentPacketHistory", "Packets"}, {ah, "sentPacketHistory", "PathProbes"}, {ah, "sentPacketHistory", "SkippedPackets"}, {ah, "lostPacketTracker", "All"}, {ah, "receivedPacketHistory", "Backward"}} {
+		f, err := c.P.Func1(spec[0], spec[1], spec[2])
+		if err != nil {
+			c.Bad(R, "iterator:"+spec[1]+"."+spec[2], "-", "iterator method not found")
+			continue
+		}
+		var fld *types.Var
+		for _, g := range withAnon(f) {
+			eachInstr(g, func(in ssa.Instruction) {
+				if fl, _ := loadedField(valueOf(in)); fl != nil {
+					if _, isSlice := fl.Type().Underlying().(*types.Slice); isSlice && fld == nil {
+						fld = fl
+					}
+				}
+			})
+		}
+		if fld == nil {
+			c.Bad(R, "iterator:"+spec[1]+"."+spec[2], c.P.Pos(f.Pos()), "no slice field found that the iterator ranges over")
+			continue
+		}
+		iters = append(iters, iterInfo{f, fld})
+	}
+	// shifters: functions that move elements of the field's backing array
+	shiftMemo := map[*ssa.Function]map[*types.Var]bool{}
+	var shifts func(g *ssa.Function, fld *types.Var, depth int) bool
+	shifts = func(g *ssa.Function, fld *types.Var, depth int) bool {
+		if g == nil || g.Blocks == nil || depth > 3 {
+			return false
+		}
+		if m, ok := shiftMemo[g]; ok {
+			if v, ok := m[fld]; ok {
+				return v
+			}
+		} else {
+			shiftMemo[g] = map[*types.Var]bool{}
+		}
+		shiftMemo[g][fld] = false
+		res := false
+		eachInstr(g, func(in ssa.Instruction) {
+			cl, ok := in.(*ssa.Call)
+			if !ok {
+				return
+			}
+			derived := func(v ssa.Value) bool {
+				for d := 0; d < 4; d++ {
+					if loadsPath(v, fld) {
+						return true
+					}
+					if sl, ok := stripConv(v).(*ssa.Slice); ok {
+						v = sl.X
+						continue
+					}
+					break
+				}
+				return false
+			}
+			if builtinName(&cl.Call) == "copy" && derived(cl.Call.Args[0]) {
+				res = true
+			}
+			if sc := cl.Call.StaticCallee(); sc != nil {
+				if sc.Pkg != nil && sc.Pkg.Pkg.Path() == "slices" && (strings.HasPrefix(sc.Name(), "Delete") || strings.HasPrefix(sc.Name(), "Insert")) && len(cl.Call.Args) > 0 && derived(cl.Call.Args[0]) {
+					res = true
+				}
+				if funcPkgPath(sc) == funcPkgPath(g) && shifts(sc, fld, depth+1) {
+					res = true
+				}
+			}
+		})
+		shiftMemo[g][fld] = res
+		return res
+	}
+	// loops: a call of an iterator's result with a yield closure
+	n := 0
+	for _, f := range c.P.ScopeFuncs() {
+		if funcPkgPath(f) != modPath+"/"+ah {
+			continue
+		}
+		eachInstr(f, func(in ssa.Instruction) {
+			cl, ok := in.(*ssa.Call)
+			if !ok || len(cl.Call.Args) != 1 {
+				return
+			}
+			src, ok := cl.Call.Value.(*ssa.Call)
+			if !ok {
+				return
+			}
+			var it *iterInfo
+			for i := range iters {
+				if src.Call.StaticCallee() == iters[i].fn {
+					it = &iters[i]
+				}
+			}
+			if it == nil {
+				return
+			}
+			mc, ok := cl.Call.Args[0].(*ssa.MakeClosure)
+			if !ok {
+				return
+			}
+			body := mc.Fn.(*ssa.Function)
+			n++
+			bad := ""
+			for _, g := range withAnon(body) {
+				eachInstr(g, func(x ssa.Instruction) {
+					if c2, ok := x.(*ssa.Call); ok {
+						if sc := c2.Call.StaticCallee(); sc != nil && shifts(sc, it.field, 0) {
+							bad = funcName(sc) + " at " + c.P.InstrPos(x)
+						}
+					}
+				})
+			}
+			c.FuncsSet[funcName(rootFn(f))] = true
+			c.Check(bad == "", R, fmt.Sprintf("iterate:%s ranges over %s without shifting %s", funcName(rootFn(f)), it.fn.Name(), it.field.Name()), c.P.InstrPos(in),
+				"removing by compaction while the iterator runs makes it skip the element that moved into the freed slot and visit the stale tail"+map[bool]string{true: "", false: " — the loop body calls " + bad}[bad == ""])
+		})
+	}
+	c.Floor(R, "range-over-iterator loops in the ack handler", n, 8)
+}
+
+// C06.7: every packet that SentPacket counts as in flight also records its send time as the space's last ack-eliciting
+// send time (the PTO is computed from it: an outstanding ack-eliciting packet without it has no deadline), and the
+// timer is re-armed before the function returns.
+func c06SentPacketBookkeeping(c *Ctx) {
+	const R = "C06.7"
+	f := c.fn(ah, "sentPacketHandler", "SentPacket")
+	bif := c.fld(ah, "sentPacketHandler", "bytesInFlight")
+	last := c.fld(ah, "packetNumberSpace", "lastAckElicitingPacketTime")
+	counted := func(in ssa.Instruction) bool {
+		st, ok := in.(*ssa.Store)
+		return ok && fieldOfAddress(st.Addr) == bif
+	}
+	recorded := func(in ssa.Instruction) bool {
+		st, ok := in.(*ssa.Store)
+		return ok && fieldOfAddress(st.Addr) == last && ParamV("t")(st.Val)
+	}
+	c.Floor(R, "bytesInFlight updates in SentPacket", countInstr(f, counted), 1)
+	c.cut(R, "record:a packet counted in flight records its send time for the PTO", &Cut{Fn: f, Target: counted, Barrier: recorded},
+		"getPTOTimeAndSpace skips a space whose lastAckElicitingPacketTime is zero: ack-eliciting data outstanding there would have no loss-detection deadline")
+	arm := c.obj(ah, "sentPacketHandler", "setLossDetectionTimer")
+	c.cut(R, "arm:the loss-detection timer is re-armed after an ack-eliciting packet was counted", &Cut{Fn: f, Start: counted, Target: isReturn, Barrier: CallsTo(arm), TrackFlags: true},
+		"a newly outstanding packet must have a deadline")
+}
+
+// valueOf: the instruction as a value (nil if it is not one).
+func valueOf(in ssa.Instruction) ssa.Value {
+	v, _ := in.(ssa.Value)
+	return v
+}
+
 // C09.14: the scrambler's ClientHello parser (sni.go) never indexes or slices out of bounds: every index/slice site
 // reachable from findSNIAndECH is compiler-proven or follows from a length fact (BND engine).
 func c09SNIParserBounds(c *Ctx) {
